@@ -111,7 +111,7 @@ Verdict schemaProp(Ctx& c) {
 struct ModelPlan {
   struct Base { std::vector<std::pair<int, std::string>> texts; bool viaAdd = false; };
   std::vector<Base> bases;                 // X1.. (1-2)
-  int structKind = 0;                      // S1 definition: 0 none, 1 ℬ(X1), 2 ℬ(X1×X1), 3 ℬℬ(X1), 4 ℬ(X1×ℬ(X1))
+  int structKind = 0;                      // S1 definition: 0 none, 1 ℬ(X1), 2 ℬ(X1×X1), 3 ℬℬ(X1), 4 ℬ(X1×ℬ(X1)), 5 ℬ(ℬ(X1×X1)×X1), 6 ℬ(ℬ(X1)×ℬ(X1×X1)×X1)
   std::vector<std::vector<int>> sdata;     // raw picks to build structure data
   std::vector<std::string> derived;        // definitions of terms / axioms
   std::vector<char> derivedKind;           // 'D' or 'A'
@@ -128,7 +128,7 @@ Verdict modelProp(Ctx& c) {
     for (int k = 0; k < n; ++k) { int key = b.viaAdd || c.chance(2, 3) ? k + 1 : c.ipick(1, 9); if (!keys.insert(key).second) continue; b.texts.emplace_back(key, c.chance(1, 4) ? "\xD1\x8D\xD0\xBB" + std::to_string(key) : "el" + std::to_string(key)); }
     p.bases.push_back(b);
   }
-  p.structKind = c.ipick(0, 4);
+  p.structKind = c.ipick(0, 6);
   for (int i = 0, n = c.ipick(0, 4); i < n; ++i) p.sdata.push_back({c.ipick(0, 8), c.ipick(0, 8), c.ipick(0, 3), c.ipick(0, 8)});
   static const std::vector<std::pair<char, std::string>> defs = {{'D', "X1\\X1"}, {'D', "X1"}, {'D', "D1" U8_UNION "X1"}, {'D', "Pr1(S1)"}, {'D', "red(S1)"}, {'D', "{X1}"}, {'D', "{{X1}, {D1}}"}, {'D', U8_BOOL "(X1)\\" U8_BOOL "(X1)"},
                                                                 {'D', "(X1, \xE2\x88\x85)"}, {'A', "X1=X1"}, {'A', U8_ALL "a" U8_IN "X1 a" U8_IN "D1"}, {'A', "card(X1)>9"}, {'D', "X9"}, {'D', "debool(X1)"}, {'D', "S1"}, {'D', "{(X1, D1)}"}};
@@ -157,7 +157,8 @@ Verdict modelProp(Ctx& c) {
   if (sparseKeys && pbt::known("model-json-drops-text-keys")) return pbt::excluded("model-json-drops-text-keys");
   EntityUID sU = 0;
   if (p.structKind) {
-    static const char* sdefs[] = {"", U8_BOOL "(X1)", U8_BOOL "(X1" U8_TIMES "X1)", U8_BOOL U8_BOOL "(X1)", U8_BOOL "(X1" U8_TIMES U8_BOOL "(X1))"};
+    static const char* sdefs[] = {"", U8_BOOL "(X1)", U8_BOOL "(X1" U8_TIMES "X1)", U8_BOOL U8_BOOL "(X1)", U8_BOOL "(X1" U8_TIMES U8_BOOL "(X1))",
+                                  U8_BOOL "(" U8_BOOL "(X1" U8_TIMES "X1)" U8_TIMES "X1)", U8_BOOL "(" U8_BOOL "(X1)" U8_TIMES U8_BOOL "(X1" U8_TIMES "X1)" U8_TIMES "X1)"};
     sU = m.Emplace(CstType::structured, sdefs[p.structKind]);
     std::vector<int> keys; for (auto& [k, t] : p.bases[0].texts) keys.push_back(k);
     if (p.bases[0].viaAdd) { keys.clear(); for (size_t i = 0; i < p.bases[0].texts.size(); ++i) keys.push_back(static_cast<int>(i + 1)); }
@@ -170,7 +171,14 @@ Verdict modelProp(Ctx& c) {
         if (p.structKind == 1) items.push_back(el(d[0]));
         else if (p.structKind == 2) items.push_back(Factory::Tuple({el(d[0]), el(d[1])}));
         else if (p.structKind == 3) items.push_back(sub(d[0], d[1], d[2]));
-        else items.push_back(Factory::Tuple({el(d[0]), sub(d[1], d[3], d[2])}));
+        else if (p.structKind == 4) items.push_back(Factory::Tuple({el(d[0]), sub(d[1], d[3], d[2])}));
+        else {
+          std::vector<ccl::object::StructuredData> pairs;  // 0-2 pairs: the inner set is often empty and not the last component
+          if (d[2] >= 2) pairs.push_back(Factory::Tuple({el(d[0]), el(d[1])}));
+          if (d[2] >= 3) pairs.push_back(Factory::Tuple({el(d[3]), el(d[0])}));
+          if (p.structKind == 5) items.push_back(Factory::Tuple({Factory::Set(pairs), el(d[3])}));
+          else items.push_back(Factory::Tuple({sub(d[0], d[1], d[2] % 3), Factory::Set(pairs), el(d[3])}));
+        }
       }
       (void)m.Values().SetStructureData(sU, Factory::Set(items));
     }
